@@ -2743,7 +2743,11 @@ primary_expression
           {
             case OBJECT_TYPE_INTEGER:
               $$.type = EXPRESSION_TYPE_INTEGER;
-              $$.value.integer = $1.value.object->value.i;
+              // The value of an object (module field or external variable)
+              // is not known until scan time; an external variable can be
+              // redefined after compilation, so its compile-time value must
+              // not be used as a constant.
+              $$.value.integer = YR_UNDEFINED;
               break;
             case OBJECT_TYPE_FLOAT:
               $$.type = EXPRESSION_TYPE_FLOAT;
